@@ -554,4 +554,19 @@ theorem C18_cex_alias_input :
     (s.lookup 0).map (·.want) = some [1, 2, 3] ∧ s.chk 0 = some [0xFE, 2, 3] := by
   decide
 
+/-- the instance the model driver answers ops `held` / `flight` with (framer of a v4 connection whose
+    compressor is `tagCodec`): the hypotheses of `C18_inflight_delivered` hold for it, so a consumer's
+    answer is the body its response was built from — for every history of the process. -/
+theorem C18_inflight_model (ops : List Op) (k : Nat) (sl : Slot)
+    (h : (run .fresh (connF (newFramer (some tagCodec) 4) tagCodec) ops).lookup k = some sl)
+    (fl op : UInt8) (s : Int) (body : Bytes) (hd : sl.dir = .recv)
+    (hb : (newFramer (some tagCodec) 4).build fl op s body = .ok sl.arg)
+    (hsz : sl.arg.length - (newFramer (some tagCodec) 4).headSize ≤ maxFrameSize) :
+    (run .fresh (connF (newFramer (some tagCodec) 4) tagCodec) ops).chk k = some body := by
+  have hv : ValidProto (newFramer (some tagCodec) 4) := by
+    unfold ValidProto newFramer; decide
+  have := (C18_inflight_delivered (newFramer (some tagCodec) 4) hv tagCodec rfl tagCodec_roundTrips ops k sl h).1
+    fl op s body hd hb hsz
+  simp [St.chk, h, this]
+
 end C18
